@@ -55,8 +55,17 @@ def generate(rng, tier):
         elif order == "shuffled":
             rng.shuffle(evals)
         T = rng.randint(1, 4)
+        ts = [rng.uniform(0.05, 3) for _ in range(T)]
+        if k % 4 == 0:
+            # time vectors spanning several orders of magnitude and large eigenvalues: a term that is negligible at the largest
+            # time dominates at the smallest one
+            evals = sorted(abs(rng.gauss(0, 2)) * rng.choice([1.0, 30.0, 300.0]) for _ in range(N))
+            ts = sorted({rng.choice([1e-4, 1e-3, 1e-2]), rng.choice([0.5, 5.0, 50.0]), rng.uniform(0.05, 3)})
+            if rng.random() < 0.5:
+                ts = ts[::-1]
+            order = "asc_widetimes"
         cases.append({"ctype": "kernel", "family": "kernel_" + order, "evecs": evecs, "evals": evals,
-                      "t": [rng.uniform(0.05, 3) for _ in range(T)], "n": rng.randint(1, N), "vfix": rng.randrange(M),
+                      "t": ts, "n": rng.randint(1, N), "vfix": rng.randrange(M),
                       "xs": [rng.randrange(M) for _ in range(rng.randint(1, 4))]})
     return cases
 
